@@ -19,6 +19,7 @@ package main
 //   [i2] inittasks                     start-up re-queueing (initTaskChan)
 //   [i2] impstep W                     one asyncImport batch            fin | more | idle | err-<class>
 //   [i2] impstep! W                    the same, even for a wallet that is already done
+//   [i2] impsteps W N                  N times impstep, without saying what each returned   ok
 //   [i2] expired                       volatile height -> confirmed tx map
 //   [i2] mempool                       volatile pending id set
 //   twin W                             observations of W in instance 1 | instance 2
@@ -243,6 +244,17 @@ func (x *irExec) op(in *irInst, a []string) string {
 		return impStep(e, a[1], false)
 	case a[0] == "impstep!" && len(a) == 2:
 		return impStep(e, a[1], true)
+	case a[0] == "impsteps" && len(a) == 3:
+		n, err := strconv.Atoi(a[2])
+		if err != nil {
+			return "bad-op"
+		}
+		for i := 0; i < n; i++ {
+			if r := impStep(e, a[1], false); r == "bad-op" || strings.HasPrefix(r, "PANIC") {
+				return r
+			}
+		}
+		return "ok"
 	case a[0] == "expired" && len(a) == 1:
 		return expiredTok(e)
 	case a[0] == "mempool" && len(a) == 1:
@@ -285,6 +297,8 @@ func (x *irExec) op(in *irInst, a []string) string {
 		return residue(e, a[1], true)
 	case a[0] == "dangling" && len(a) == 1:
 		return dangling(e)
+	case a[0] == "stalepend" && len(a) == 1:
+		return stalePend(e, x.inst1().e.chain)
 	}
 	return ledOp(e, a)
 }
@@ -792,4 +806,44 @@ func (e *WEnv) txNameOfHash(h [32]byte) string {
 		return ti.name
 	}
 	return "?"
+}
+
+// stalePend: transactions of the persistent pending set that can never confirm on the node's
+// chain because one of their inputs is spent there by another transaction.
+func stalePend(e *WEnv, chain []string) string {
+	hs, _, err := e.wm.VerifUnmined()
+	if err != nil {
+		return "err"
+	}
+	type op struct {
+		h [32]byte
+		i uint32
+	}
+	spentBy := map[op][32]byte{}
+	for _, bn := range chain {
+		bi := e.blocks[bn]
+		for k, tx := range bi.msg.Transactions {
+			if k == 0 {
+				continue
+			}
+			for _, in := range tx.TxIn {
+				spentBy[op{in.PreviousOutPoint.Hash, in.PreviousOutPoint.Index}] = tx.TxHash()
+			}
+		}
+	}
+	var items []string
+	for _, h := range hs {
+		ti, ok := e.txByHash[h]
+		if !ok {
+			items = append(items, "?")
+			continue
+		}
+		for _, in := range ti.msg.TxIn {
+			if by, ok := spentBy[op{in.PreviousOutPoint.Hash, in.PreviousOutPoint.Index}]; ok && by != h {
+				items = append(items, ti.name)
+				break
+			}
+		}
+	}
+	return joinSorted(items)
 }
